@@ -394,6 +394,9 @@ def call_attr(I, n, f, args, kwargs):
                f"unicodedata.normalize({form!r}, ..) rewrites the prefix character(s) {changed} (U+{ord(changed[0][0]):04X} -> "
                f"U+{ord(_ud.normalize(form, changed[0])[0]):04X}) to characters that are not in the prefix table: a "
                f"documented spelling is refused" if changed else '')
+        t1 = I.as_tstr(args[1])
+        if t1 is not None and t1.is_literal():
+            return S(_ud.normalize(form, t1.text()))        # known characters: the rewriting is applied
         return args[1]
     if src is not None and src.startswith(('numpy.', 'np.', 'pandas.', 'math.')):
         hook = I.opts.get('numpy_hook')
@@ -526,8 +529,39 @@ def obj_method(I, n, recv, name, args, kwargs):
     return Other(f"{what}.{name}()")
 
 
+LITERAL_STR_METHODS = {'upper', 'lower', 'casefold', 'swapcase', 'title', 'capitalize', 'islower', 'isupper', 'isdigit',
+                       'isalpha', 'isalnum', 'isnumeric', 'isdecimal', 'isspace', 'strip', 'lstrip', 'rstrip', 'replace',
+                       'removesuffix', 'removeprefix', 'startswith', 'endswith', 'find', 'index', 'count', 'zfill'}
+
+
 def str_method(I, n, t: TStr, name, args):
     a0 = I.as_tstr(args[0]) if args else None
+    if t.is_literal() and name in LITERAL_STR_METHODS:
+        # known characters: the method is evaluated exactly (on the abstract literal, nothing of the library runs)
+        lits = []
+        for a in args:
+            ta = I.as_tstr(a)
+            if ta is not None and ta.is_literal():
+                lits.append(ta.text())
+            elif isinstance(a, Lit) and isinstance(a.v, (int, float)):
+                lits.append(int(a.v))
+            else:
+                lits = None
+                break
+        if lits is not None:
+            try:
+                r = getattr(t.text(), name)(*lits)
+            except (TypeError, ValueError):
+                raise Raised('ValueError', n.lineno)
+            if isinstance(r, bool):
+                return Bool(r)
+            if isinstance(r, int):
+                return Lit(r)
+            return S(r)
+    if name == 'replace' and len(args) >= 2 and a0 is not None and a0.is_literal():
+        a1 = I.as_tstr(args[1])
+        if a1 is not None and a1.is_literal() and len(args) == 2:
+            return S(t.replace_all(a0.text(), a1.text()))
     if name == 'endswith':
         if a0 is None or not a0.is_literal():
             if isinstance(args[0], (Tup, ListV)):
